@@ -461,6 +461,7 @@ def main(tier):
                              len([1 for _f, s, _k in sites if s["cls"] == "B"])})
     used = set()
     for f, s, key in sites:
+        key = panics.resolve_key(REVIEWED, key, s)
         if s["cls"] != "A":
             continue
         auto = panics.auto_discharge(f, s)
